@@ -50,6 +50,18 @@ func (m *shareModel) on(st *subjState, in subjIn) []string {
 	return d
 }
 
+// reentrantOK: subscribing from inside a terminal callback is only exercised when that terminal resets the
+// shared state (otherwise the newcomer would have to join the very subject that is busy broadcasting).
+func (m *shareModel) reentrantOK(term string) bool {
+	if m.connectable {
+		return false
+	}
+	if term == "srcE" {
+		return m.resetErr
+	}
+	return m.resetCompl
+}
+
 func (m *shareModel) release() {
 	if m.live {
 		m.live = false
@@ -137,6 +149,17 @@ func (m *shareModel) step(op OpSpec) []string {
 			m.subj = nil
 		}
 		return d
+	case "srcE>sub", "srcC>sub":
+		// the source terminates; a new subscriber (id B) subscribes from inside the terminal callback of a
+		// current subscriber. With the matching reset option the shared state was reset before the terminal
+		// was handed out, so the newcomer starts a fresh execution.
+		term := OpSpec{Client: op.Client, Op: op.Op[:4], A: op.A}
+		host := m.live && m.subj != nil && len(m.subj.Subs) > 0
+		d := m.step(term)
+		if host && m.reentrantOK(term.Op) {
+			d = append(d, m.step(OpSpec{Client: op.Client, Op: "sub", A: op.B})...)
+		}
+		return d
 	case "connect":
 		if !m.connected {
 			if m.subj == nil {
@@ -188,6 +211,11 @@ func genShareOps(g *Gen, connectable bool, clients int) []OpSpec {
 		case x < 14:
 			ops = append(ops, OpSpec{Client: c, Op: "srcN", A: nextVal})
 			nextVal++
+		case x < 15 && !connectable && clients == 1 && nextSub < 4 && g.Bool(0.4):
+			// terminal + a subscription made from inside a subscriber's terminal callback (sequential mode)
+			ops = append(ops, OpSpec{Client: c, Op: g.Pick("srcE>sub", "srcC>sub"), A: g.Intn(4), B: nextSub})
+			live = map[int]int{nextSub: c}
+			nextSub++
 		case x < 15:
 			ops = append(ops, OpSpec{Client: c, Op: "srcC"})
 		case x < 16:
@@ -222,6 +250,19 @@ func init() {
 			}
 			sc.Sources = []SrcSpec{{Mode: "manual"}}
 			sc.Ops = genShareOps(g, sc.Sub == "connectable", sc.Int("clients", 1))
+			if sc.Sub == "connectable" && clients == 1 && g.Bool(0.3) {
+				// a cold source that plays [101 102 complete] synchronously inside every Connect
+				sc.SetInt("syncsrc", 1)
+				sc.Sources = []SrcSpec{{Mode: "sync", Script: []Step{{K: "N", V: 101}, {K: "N", V: 102}, {K: "C"}}}}
+				var ops []OpSpec
+				for _, op := range sc.Ops {
+					if !strings.HasPrefix(op.Op, "src") {
+						ops = append(ops, op)
+					}
+				}
+				ops = append(ops, OpSpec{Op: "connect"}, OpSpec{Op: "sub", A: 7}, OpSpec{Op: "connect"})
+				sc.Ops = ops
+			}
 			return sc
 		}
 	}
@@ -258,8 +299,10 @@ func runC11(e *Env) {
 	subs := map[int]ro.Subscription{}
 	counts := map[int]int{}
 	recs := map[int]*Rec{}
-	var cur []string // deliveries of the operation in progress (sequential mode)
-	mkObserver := func(id int) ro.Observer[int] {
+	var cur []string   // deliveries of the operation in progress (sequential mode)
+	var inside *OpSpec // a subscription to be made from inside the next terminal callback
+	var mkObserver func(id int) ro.Observer[int]
+	mkObserver = func(id int) ro.Observer[int] {
 		r := e.NewRec(fmt.Sprintf("s%d", id))
 		recs[id] = r
 		hook := func() {
@@ -268,7 +311,14 @@ func runC11(e *Env) {
 			counts[id]++
 		}
 		r.OnNextHook = func(*Rec, int) { hook() }
-		r.OnTermHook = func(*Rec, byte) { hook() }
+		r.OnTermHook = func(*Rec, byte) {
+			hook()
+			if op := inside; op != nil {
+				inside = nil
+				e.K.Log(fmt.Sprintf("subscriber %d subscribes %d from inside its terminal callback", id, op.B))
+				subs[op.B] = shared.Subscribe(mkObserver(op.B))
+			}
+		}
 		return r.Observer()
 	}
 	var connSub ro.Subscription
@@ -289,6 +339,17 @@ func runC11(e *Env) {
 			src.Push(Step{K: "E", V: op.A})
 		case "srcC":
 			src.Push(Step{K: "C"})
+		case "srcE>sub", "srcC>sub":
+			if m.reentrantOK(op.Op[:4]) {
+				o := op
+				inside = &o
+			}
+			if op.Op == "srcE>sub" {
+				src.Push(Step{K: "E", V: op.A})
+			} else {
+				src.Push(Step{K: "C"})
+			}
+			inside = nil
 		case "connect":
 			connSub = conn.Connect()
 			atomic.StoreUint32(&connPub, 1)
@@ -316,7 +377,21 @@ func runC11(e *Env) {
 				e.Violate("C11", "operation-blocks", fmt.Sprintf("%s %v: operation #%d %s never returned (history %s)", sc.Sub, sc.Ints, i, hist[len(hist)-1], strings.Join(hist, " ")))
 				return
 			}
+			upBefore := m.upSubs
 			want := m.step(op)
+			if sc.Int("syncsrc", 0) == 1 && op.Op == "connect" && m.upSubs > upBefore {
+				// the connection was made: the cold source played its script inside Connect
+				for _, st := range sc.Sources[0].Script {
+					switch st.K {
+					case "N":
+						want = append(want, m.step(OpSpec{Op: "srcN", A: st.V})...)
+					case "E":
+						want = append(want, m.step(OpSpec{Op: "srcE", A: st.V})...)
+					default:
+						want = append(want, m.step(OpSpec{Op: "srcC"})...)
+					}
+				}
+			}
 			got := append([]string(nil), cur...)
 			sort.Strings(want)
 			sort.Strings(got)
@@ -384,6 +459,12 @@ func runC11(e *Env) {
 			}
 			if v <= last {
 				e.Violate("C11", "subscriber-order", fmt.Sprintf("%s: subscriber %d received %v: not in source order", sc.Sub, id, r.Values()))
+				break
+			}
+			if last >= 0 && v != last+1 && !m.connectable {
+				// the source emits 1, 2, 3, ...: while it is subscribed a subscriber receives every value of
+				// the execution it joined (what it was replayed directly precedes what it then receives live)
+				e.Violate("C11", "subscriber-gap", fmt.Sprintf("%s %v: subscriber %d received %v: value(s) between %d and %d reached the other subscribers (or the replay buffer) but not this one (ops %v)", sc.Sub, sc.Ints, id, r.Values(), last, v, sc.Ops))
 				break
 			}
 			last = v
